@@ -76,6 +76,9 @@ def run(ctx, prefixes):
                act("ctl", 0, t="WU", v=65535), act("ctl", 1, t="WU", v=65535)]},
         {"h": [act("headers", 1), act("headers", 3), act("data", 3, 40000), act("data", 1, 40000), act("headers", 1, es=True), act("close"),
                act("ctl", 1, t="WU", v=65535), act("ctl", 0, t="WU", v=65535), act("ctl", 3, t="WU", v=65535)]},
+        # a PUSH_PROMISE whose header block is completed by a CONTINUATION frame, then the response
+        {"h": [act("headers", 1), act("push_open", 1, n=2), act("cont", 1), act("headers", 1, es=True)], "dir": "s2c"},
+        {"h": [act("headers", 3), act("data", 3, 100), act("push_open", 3, n=4), act("cont", 3), act("data", 3, 100, es=True)], "dir": "s2c"},
         # the same with a sender that closes its connection altogether and a receiver that sends PINGs before it opens its
         # windows (MC_H2Relay_WriteErrorEndsReader)
         {"h": [act("headers", 1), act("data", 1, 40000), act("data", 1, 40000, es=True), act("close_full"), act("bping"),
@@ -92,7 +95,12 @@ def run(ctx, prefixes):
         if not r["ok"]:
             probs = r.get("problems") or [r["why"]]
             mine = [p for p in probs if p.split(":")[0] in prefixes]
-            if mine:
+            # a PUSH_PROMISE completed by CONTINUATION ends the whole direction (x/net's Framer): whatever is missing
+            # afterwards is this one input's doing
+            pushc = r["dir"] == "s2c" and any(a["a"] == "push_open" for a in r["actions"])
+            if mine and pushc:
+                ctx.violation("%s:push-promise-continued" % ctx.pid, {"why": mine[0], "problems": probs, "dir": r["dir"], "actions": r["actions"], "events": r.get("events")})
+            elif mine:
                 ctx.violation(":".join(mine[0].split(":")[:2]), {"why": mine[0], "problems": probs, "dir": r["dir"], "actions": r["actions"], "events": r.get("events")})
             else:
                 other += 1
@@ -111,7 +119,9 @@ def run(ctx, prefixes):
             # attribute the rejection: header / reset events are fidelity (C10), credit is flow control (C09)
             owner = {"a_credit": ("C09",), "a_settings": ("C09",), "b_ping": ("C10",), "b_goaway": ("C10",), "b_recv": ("C10",) if off.get("t") in ("H", "R", "PP") else ("C09", "C10")}.get(off.get("ev"), ("C09", "C10"))
             detail = {"matched_prefix": hwm, "of": total, "scenario_so_far": lines[max(0, start - 1):hwm], "offending": lines[hwm:hwm + 2], "tlc": tout[-600:]}
-            if ctx.pid in owner:
+            if any('"a_push"' in x and '"open":true' in x for x in lines[max(0, start - 1):hwm + 1]):
+                ctx.violation("%s:push-promise-continued:trace" % ctx.pid, detail)
+            elif ctx.pid in owner:
                 ctx.violation("%s:trace-rejected:%s" % (ctx.pid, off.get("ev", "?") + (":" + off.get("t", "") if off.get("t") else "")), detail)
             else:
                 ctx.notes.append("trace rejected for the sibling property at line %d" % hwm)
